@@ -65,6 +65,9 @@ def reader_texts():
     yield "use-before-definition", "INPUT(a)\nINPUT(b)\nOUTPUT(o)\nOUTPUT(n1)\no = NAND(n1, n2)\nn1 = NOT(a)\nn2 = OR(a, b)\n", ["a", "b"], ["o", "n1"], \
         {"o": lambda v: not ((not v["a"]) and (v["a"] or v["b"])), "n1": lambda v: not v["a"], "n2": lambda v: v["a"] or v["b"]}
     yield "spacing-variants", "input(x1)\ninput( x_2 )\noutput( y )\ny=xor( x1 ,x_2 )\n", ["x1", "x_2"], ["y"], {"y": lambda v: v["x1"] != v["x_2"]}
+    yield "operand-lists-wrapped-over-lines", "INPUT(a)\nINPUT(\n  b )\nINPUT(c)\nOUTPUT(\to\n)\nn1 = AND(a,\n         b)\nn2 = OR( n1\n\t, c\n)\no = XNOR(n1,\nn2)\n", ["a", "b", "c"], ["o"], \
+        {"n1": lambda v: v["a"] and v["b"], "n2": lambda v: (v["a"] and v["b"]) or v["c"], "o": lambda v: (v["a"] and v["b"]) == ((v["a"] and v["b"]) or v["c"])}
+    yield "several-statements-per-line-and-tabs", "INPUT(a) INPUT(b)\nOUTPUT(o)\tOUTPUT(p)\no\t=\tNAND(a,\tb)  p = NOT(o)\n", ["a", "b"], ["o", "p"], {"o": lambda v: not (v["a"] and v["b"]), "p": lambda v: v["a"] and v["b"]}
     yield "names-with-digits", "INPUT(N1)\nINPUT(N2)\nOUTPUT(N10)\nN7 = AND(N1, N2)\nN10 = NOR(N7, N1)\n", ["N1", "N2"], ["N10"], {"N10": lambda v: not ((v["N1"] and v["N2"]) or v["N1"]), "N7": lambda v: v["N1"] and v["N2"]}
     yield "output-is-input", "INPUT(a)\nINPUT(b)\nOUTPUT(a)\nOUTPUT(g)\ng = AND(a, b)\n", ["a", "b"], ["a", "g"], {"g": lambda v: v["a"] and v["b"], "a": lambda v: v["a"]}
 
